@@ -276,6 +276,31 @@ fn find_related_text() {
             }
         }
     }
+    // from a set of two known selections: exactly the other known selections for which the set-level test holds, each once
+    {
+        let resource_ref: &TextResource = store.get("r").unwrap();
+        let picks: Vec<(usize, usize)> = known.iter().step_by(5).take(7).cloned().collect();
+        for i in 0..picks.len() { for j in 0..picks.len() {
+            if i == j { continue; }
+            let members = [picks[i], picks[j]];
+            let mut set = TextSelectionSet::new(resource.handle());
+            for (b, e) in members.iter() { set.add(resource.textselection(&Offset::simple(*b, *e)).unwrap().inner().clone()); }
+            for op in all_ops() {
+                if let TextSelectionOperator::Equals { negate: false, .. } = op { continue; }
+                let got: Vec<(usize, usize)> = match std::panic::catch_unwind(std::panic::AssertUnwindSafe(|| set.clone().as_resultset(&store).related_text(op).map(|t| (t.begin(), t.end())).collect::<Vec<_>>())) {
+                    Ok(v) => v,
+                    Err(_) => { println!("WITNESS {{\"clause\":\"FindTextSelectionsIter/safety\",\"operator\":\"{:?}\",\"reference_set\":\"{:?}\",\"got\":\"panic\"}}", op, members); return; }
+                };
+                let mut want: Vec<(usize, usize)> = known.iter().filter(|m| !members.contains(m))
+                    .filter(|(b, e)| { let cand = resource.textselection(&Offset::simple(*b, *e)).unwrap(); set.test(&op, cand.inner(), resource_ref) }).cloned().collect();
+                let mut sorted = got.clone(); sorted.sort(); want.sort();
+                if sorted != want {
+                    println!("WITNESS {{\"clause\":\"init_textseliters/once\",\"operator\":\"{:?}\",\"text\":{:?},\"reference_set\":\"{:?}\",\"search_returns\":\"{:?}\",\"test_holds_for\":\"{:?}\"}}", op, TEXT, members, got, want);
+                    return;
+                }
+            }
+        }}
+    }
     // the equality relation: from a known selection it returns that selection itself; from a set all its members when every member
     // is known, and nothing otherwise - whatever the order of the members (the shortcut that does not walk the index)
     let unknown: Vec<(usize, usize)> = { let mut v = vec![]; for b in 0..=n { for e in b..=n { if !known.contains(&(b, e)) { v.push((b, e)); } } } v };
